@@ -465,6 +465,39 @@ impl BlockchainSyncState {
     }
 }
 
+// verification hooks (only compiled with --cfg saito_verif)
+#[cfg(saito_verif)]
+impl BlockchainSyncState {
+    pub fn verif_build_peer_block_picture(&mut self, blockchain: &Blockchain) {
+        self.build_peer_block_picture(blockchain)
+    }
+    /// (peer, [(block_id, block_hash, status, retry_count)]) in deque order
+    pub fn verif_snapshot(&self) -> Vec<(PeerIndex, Vec<(BlockId, SaitoHash, u8, u32)>)> {
+        let mut out: Vec<(PeerIndex, Vec<(BlockId, SaitoHash, u8, u32)>)> = self
+            .blocks_to_fetch
+            .iter()
+            .map(|(peer, deq)| {
+                (
+                    *peer,
+                    deq.iter()
+                        .map(|b| {
+                            let st = match b.status {
+                                BlockStatus::Queued => 0u8,
+                                BlockStatus::Fetching => 1u8,
+                                BlockStatus::Fetched => 2u8,
+                                BlockStatus::Failed => 3u8,
+                            };
+                            (b.block_id, b.block_hash, st, b.retry_count)
+                        })
+                        .collect(),
+                )
+            })
+            .collect();
+        out.sort_by_key(|(peer, _)| *peer);
+        out
+    }
+}
+
 #[cfg(test)]
 mod tests {
     use crate::core::consensus::blockchain_sync_state::BlockchainSyncState;
